@@ -65,6 +65,14 @@ with tempfile.TemporaryDirectory() as d:
                 b'\0\1f\0octet\0utimeout\0\x31\0', b'\0\1f\0mail\0', b'junk'):
         c = Client(srv.server_address, 0.5); c.s.sendto(req, srv.server_address); c.recv(); c.close()
     snap('refused')
+    # 4b. churn: many short transfers registered and reaped at the same time from several client threads
+    def churn():
+        for _ in range(40):
+            c = Client(srv.server_address, 1.0); c.rrq(b'empty'); c.run(); c.close()
+    cts = [threading.Thread(target=churn) for _ in range(8)]
+    for t in cts: t.start()
+    for t in cts: t.join(60)
+    snap('churn of 320 short transfers from 8 threads')
     # 5. server_close ends transfers in progress
     cs = []
     for i in range(3):
